@@ -20,12 +20,13 @@ import (
 // Environment doubles and the scenario interpreter shared by C10 C11 C12 C15.
 
 var (
-	errInjectedWrite       = errors.New("injected write failure")
-	errConnClosed          = errors.New("vconn: use of closed connection")
-	errReadTimeout   error = &net.OpError{Op: "read", Net: "vconn", Err: os.ErrDeadlineExceeded} // a net.Error whose Timeout() is true, like a read deadline that expired
-	errInjConnClose        = errors.New("injected connection close error")
-	errInjAgentClose       = errors.New("injected agent close error")
-	errInjAgentStart       = errors.New("injected agent start error")
+	errInjectedWrite         = errors.New("injected write failure")
+	errConnClosed            = errors.New("vconn: use of closed connection")
+	errReadTimeout     error = &net.OpError{Op: "read", Net: "vconn", Err: os.ErrDeadlineExceeded} // a net.Error whose Timeout() is true, like a read deadline that expired
+	errInjConnClose          = errors.New("injected connection close error")
+	errInjAgentClose         = errors.New("injected agent close error")
+	errInjAgentStart         = errors.New("injected agent start error")
+	errInjAgentProcess       = errors.New("injected agent process error: message refused")
 	// the same faults with errors whose IDENTITY means something elsewhere: closing a connection that is closed
 	// already, an agent closed by its owner first, a write that runs into its deadline
 	errInjConnCloseSentinel  error = &net.OpError{Op: "close", Net: "udp", Err: net.ErrClosed}
@@ -102,11 +103,13 @@ func (e cliEv) String() string {
 	case "failagent":
 		return "failagent(" + []string{"injected error", "ErrTransactionExists"}[e.Arg] + ")"
 	case "readerr":
-		return "readerr(" + []string{"generic", "net.ErrClosed", "io.EOF", "ECONNREFUSED", "deadline exceeded"}[e.Arg] + ")"
+		return "readerr(" + []string{"generic", "net.ErrClosed", "io.EOF", "ECONNREFUSED", "deadline exceeded", "ECONNRESET"}[e.Arg] + ")"
 	case "setrto":
 		return fmt.Sprintf("setrto(%dms)", e.Arg)
 	case "clockback":
 		return "the clock is set back by an hour"
+	case "failprocess":
+		return "the agent refuses the next message"
 	}
 	return e.K
 }
@@ -383,14 +386,23 @@ func (v *vCollector) tick(t time.Time) {
 
 // vAgent delegates to the real Agent and records deadlines.
 type vAgent struct {
-	w         *cliWorld
-	a         *stun.Agent
-	deadlines map[[12]byte]time.Time
-	failStart bool // the next Start fails (a ClientAgent is user-supplied: its Start may return an error)
-	failKind  int
+	w           *cliWorld
+	a           *stun.Agent
+	deadlines   map[[12]byte]time.Time
+	failProcess bool // the next Process is refused with an error that is not ErrAgentClosed
+	failStart   bool // the next Start fails (a ClientAgent is user-supplied: its Start may return an error)
+	failKind    int
 }
 
-func (a *vAgent) Process(m *stun.Message) error { return a.a.Process(m) }
+func (a *vAgent) Process(m *stun.Message) error {
+	if a.failProcess {
+		// a user-supplied agent may refuse a message (a filter, a rate limit): the message is not processed
+		a.failProcess = false
+		a.w.rec(obsRec{Kind: "process-refused", Inst: -1, Data: append([]byte(nil), m.Raw...)})
+		return errInjAgentProcess
+	}
+	return a.a.Process(m)
+}
 func (a *vAgent) Close() error {
 	err := a.a.Close()
 	if err == nil && a.w.sc.Opts.AgentCloseErr {
@@ -456,6 +468,8 @@ func cliReadErr(kind int) error {
 		return &net.OpError{Op: "read", Net: "udp", Err: syscall.ECONNREFUSED} // not Temporary(), not Timeout()
 	case 4:
 		return os.ErrDeadlineExceeded
+	case 5:
+		return &net.OpError{Op: "read", Net: "udp", Err: os.NewSyscallError("recvfrom", syscall.ECONNRESET)}
 	}
 	return errors.New("vconn: injected read error")
 }
@@ -869,6 +883,8 @@ func (w *cliWorld) do(ev cliEv, quiesce bool) {
 	case "setrto":
 		w.rtoNow = time.Duration(ev.Arg) * time.Millisecond
 		c.SetRTO(w.rtoNow)
+	case "failprocess":
+		w.agent.failProcess = true
 	case "clockback":
 		// the caller's clock is a wall clock: it is stepped back (NTP correction, VM restore). Deadlines of
 		// transactions started from now on are taken from the new time
